@@ -115,10 +115,15 @@ def setup_extra():
         raise RuntimeError(o["log"][-2000:])
 
 
+GEN_PY_VIEWS = os.path.join(C.VERIF, "coq", "footprint", "GenPyViews.v")
+
+
 def _translate():
-    """Source tie of the footprint model (pinned statements) + the translator of the imported group pyidx
-    (coq/pyidx/GenSlots.v: shape/strides formulas of the `__getbuffer__`s, about which C06b.v's
-    fp_py_*_view_inside_rows speak) — pyidx is not in vlib.common.GROUP_TRANSLATORS, so it is run here."""
+    """Source tie of the footprint model (pinned statements) + coq/footprint/GenPyViews.v: the shape / strides
+    formulas of the 2-d `__getbuffer__`s of lightmotif-py (StripedSequence, ScoringMatrix, StripedScores), read from
+    lib.rs by translate/pyidx_slots.py (C18's translator, reused as a library: its output GenSlots.v is parsed for the
+    six `gen_*_shape` / `gen_*_strides` definitions, so that coq/footprint does not depend on the build of coq/pyidx).
+    C06b.v's fp_py_*_view_inside_rows speak about these generated formulas."""
     r = footprint_src.translate()
     try:
         from translate import pyidx_slots
@@ -126,7 +131,26 @@ def _translate():
         r.setdefault("notes", []).extend("pyidx translator: " + n for n in t.get("notes", []))
         if not t.get("ok", True):
             r["ok"] = False
-            r.setdefault("errors", []).extend("pyidx translator (GenSlots.v): " + e for e in t.get("errors", ["failed"]))
+            r.setdefault("errors", []).extend("pyidx translator (shape/strides of the buffer views): " + e
+                                              for e in t.get("errors", ["failed"]))
+        else:
+            gen = open(pyidx_slots.OUT).read()
+            defs = re.findall(r"^Definition gen_(?:striped|scoring|scores)_(?:shape|strides) .*$", gen, re.M)
+            if len(defs) != 6:
+                r["ok"] = False
+                r.setdefault("errors", []).append("GenPyViews: %d of the 6 shape/strides definitions found in GenSlots.v" % len(defs))
+            else:
+                text = ("(* GENERATED by props/c06.py (_translate) from lightmotif-py/lightmotif/lib.rs through "
+                        "translate/pyidx_slots.py — do not edit. *)\nFrom Coq Require Import ZArith.\n\n"
+                        + "\n".join(defs) + "\n")
+                try:
+                    old = open(GEN_PY_VIEWS).read()
+                except OSError:
+                    old = None
+                if old != text:
+                    with open(GEN_PY_VIEWS, "w") as f:
+                        f.write(text)
+                    r.setdefault("notes", []).append("GenPyViews.v regenerated")
     except Exception as e:      # cannot parse lib.rs: a broken obligation, never a crash
         r["ok"] = False
         r.setdefault("errors", []).append("pyidx translator raised %r" % (e,))
